@@ -45,6 +45,7 @@ From Coq Require Import ZArith List Bool Lia.
 From CSS Require Import Count.ObjectsModel Count.ObjectsProofs Count.ObjectsSpec Count.ObjectsExample
      Count.SampleModel Count.ParseTrees Count.ParseTreesProofs Count.ParseTreesExample.
 From CSS Require Import Iso.ParseTreesIso Iso.Construct.
+From CSS Require Iso.Deciders Iso.DecidersObjects Count.ObjectsRun Count.ParseTreesRun Count.ParseTreesRunSpec Count.ParseTreesSampleDeciders.
 From CSS Require Import Base.PyList Gen.PermInv Iso.Model Iso.Cert Iso.Valid Iso.PermProofs
      Iso.Transport Iso.Search Iso.CertProofs Iso.Refl Iso.ReflTotal Iso.Complete Iso.EquivSym Iso.Symmetric
      Iso.SearchSyn Iso.SymmetricFull Iso.Refuted Iso.Termination Iso.NoRaise Iso.Verdict.
@@ -114,6 +115,29 @@ Qed.
 Theorem C12_check_cert_sound : forall s1 s2 ord fuel,
   check_cert s1 s2 ord fuel = true -> valid_cert s1 s2 ord.
 Proof. exact check_cert_sound. Qed.
+
+(* the hypotheses of (2) DECIDED on the case: run_c12 (Iso/Run.v) prints check_cert of the order map the REAL code
+   built (field 2) and wf_specb of the two descriptors (fields 7, 8; Iso/Deciders.v); the harness expects 1 for the
+   first on every constructed bijection and recomputes the other two (Desc.wf), so the verdicts are compared on every
+   case.  With the three verdicts 1 the conclusion of C12_transport_inverse holds for that order map. *)
+Theorem C12_wf_spec_decided : forall s, Deciders.wf_specb s = true -> wf_spec s.
+Proof. exact Deciders.wf_specb_sound. Qed.
+
+Theorem C12_transport_inverse_decided : forall s1 s2 ord fuel,
+  Deciders.wf_specb s1 = true -> Deciders.wf_specb s2 = true -> check_cert s1 s2 ord fuel = true ->
+  (forall t, wf_tree s1 (s_root s1) t ->
+     exists u, wf_tree s2 (s_root s2) u /\ tsize s2 u = tsize s1 t /\
+       (exists f0, forall f, (f0 <= f)%nat ->
+          bij_map s1 s2 ord f t = Ok u /\ bij_inverse_map s1 s2 ord f u = Ok t)) /\
+  (forall u, wf_tree s2 (s_root s2) u ->
+     exists t, wf_tree s1 (s_root s1) t /\ tsize s1 t = tsize s2 u /\
+       (exists f0, forall f, (f0 <= f)%nat ->
+          bij_inverse_map s1 s2 ord f u = Ok t /\ bij_map s1 s2 ord f t = Ok u)).
+Proof.
+  intros s1 s2 ord fuel W1 W2 Hc.
+  exact (C12_transport_inverse s1 s2 ord (C12_wf_spec_decided s1 W1) (C12_wf_spec_decided s2 W2)
+           (C12_check_cert_sound s1 s2 ord fuel Hc)).
+Qed.
 
 (* (4a) Certificates are symmetric: the order map used by inverse_map certifies the isomorphism
         in the other direction. *)
@@ -331,6 +355,72 @@ Theorem C12_transport_inverse_objects : forall (obj1 obj2 : Type)
          obj_map cspec1 atom1 fwd1 cspec2 atom2 s1 s2 root1 ord f o = Some o').
 Proof.
   intros. eapply objects_bijection; eauto. apply transport_bijection; assumption.
+Qed.
+
+(* the hypotheses of C12_transport_inverse_objects that are decidable, DECIDED on the case: run_c12 prints, for the
+   C07 descriptors descs1 / descs2 of the two specifications (appended input field; built by harness/props/c07.py
+   _rule_desc under the labels of the C12 descriptors), idescribesb (Iso/DecidersObjects.v), the rank certificate and
+   closedness (Count/ParseTreesDeciders.v), beside wf_specb and check_cert of the real order map.  With all verdicts 1
+   the conclusion holds for cspec_i = spec_of (map dec_rule descs_i), atom_i = atom_run descs_i and every size function
+   giving the listed atoms the size written in their descriptor.  node_ok (the strategies' bijection contracts) and
+   size >= 0 stay hypotheses. *)
+Theorem C12_idescribes_decided : forall (size : Z -> Z) descs s,
+  ParseTreesSampleDeciders.atom_sizes_ok size descs -> DecidersObjects.idescribesb descs s = true ->
+  idescribes size (ObjectsRun.spec_of (map ObjectsRun.dec_rule descs)) (ParseTreesRun.atom_run descs) s.
+Proof. exact DecidersObjects.idescribesb_sound. Qed.
+
+Theorem C12_transport_inverse_objects_decided : forall
+    (size1 : Z -> Z) (In1 : nat -> Z -> Prop) (par1 : nat -> Z -> ObjectsModel.params) (fwd1 : nat -> Z -> subobj Z)
+    (size2 : Z -> Z) (In2 : nat -> Z -> Prop) (par2 : nat -> Z -> ObjectsModel.params) (fwd2 : nat -> Z -> subobj Z)
+    descs1 descs2 (s1 s2 : spec) (root1 root2 : nat) (ord : order_map) fuel,
+  let cspec1 := ObjectsRun.spec_of (map ObjectsRun.dec_rule descs1) in
+  let atom1 := ParseTreesRun.atom_run descs1 in
+  let cspec2 := ObjectsRun.spec_of (map ObjectsRun.dec_rule descs2) in
+  let atom2 := ParseTreesRun.atom_run descs2 in
+  DecidersObjects.objects_verdict (Sx.L [Sx.L descs1; Sx.L descs2]) s1 s2
+    = Sx.L [Sx.I 1; Sx.I 1; Sx.I 1; Sx.I 1; Sx.I 1; Sx.I 1] ->
+  Deciders.wf_specb s1 = true -> Deciders.wf_specb s2 = true -> check_cert s1 s2 ord fuel = true ->
+  ParseTreesSampleDeciders.atom_sizes_ok size1 descs1 -> ParseTreesSampleDeciders.atom_sizes_ok size2 descs2 ->
+  (forall c, node_ok size1 In1 par1 cspec1 atom1 fwd1 c) -> (forall c o, In1 c o -> 0 <= size1 o) ->
+  cspec1 root1 <> None -> s_root s1 = Z.of_nat root1 ->
+  (forall c, node_ok size2 In2 par2 cspec2 atom2 fwd2 c) -> (forall c o, In2 c o -> 0 <= size2 o) ->
+  cspec2 root2 <> None -> s_root s2 = Z.of_nat root2 ->
+  (forall o, In1 root1 o ->
+     exists o', In2 root2 o' /\ size2 o' = size1 o /\
+       exists f0, forall f, (f0 <= f)%nat ->
+         obj_map cspec1 atom1 fwd1 cspec2 atom2 s1 s2 root1 ord f o = Some o' /\
+         obj_inverse_map cspec1 atom1 cspec2 atom2 fwd2 s1 s2 root2 ord f o' = Some o) /\
+  (forall o', In2 root2 o' ->
+     exists o, In1 root1 o /\ size1 o = size2 o' /\
+       exists f0, forall f, (f0 <= f)%nat ->
+         obj_inverse_map cspec1 atom1 cspec2 atom2 fwd2 s1 s2 root2 ord f o' = Some o /\
+         obj_map cspec1 atom1 fwd1 cspec2 atom2 s1 s2 root1 ord f o = Some o').
+Proof.
+  intros size1 In1 par1 fwd1 size2 In2 par2 fwd2 descs1 descs2 s1 s2 root1 root2 ord fuel cspec1 atom1 cspec2 atom2
+         Hv W1 W2 Hc Hz1 Hz2 Hn1 Hp1 Hr1 Hs1 Hn2 Hp2 Hr2 Hs2.
+  unfold DecidersObjects.objects_verdict in Hv. simpl in Hv.
+  injection Hv as Hi1 Hk1 Hc1 Hi2 Hk2 Hc2.
+  assert (Ei1 : DecidersObjects.idescribesb descs1 s1 = true)
+    by (destruct (DecidersObjects.idescribesb descs1 s1); [reflexivity|discriminate]).
+  assert (Ei2 : DecidersObjects.idescribesb descs2 s2 = true)
+    by (destruct (DecidersObjects.idescribesb descs2 s2); [reflexivity|discriminate]).
+  assert (Hk1' : Sx.sx_nth (ParseTreesRun.rank_verdict descs1) 0 = Sx.I 1)
+    by (unfold ParseTreesRun.rank_verdict, Sx.sx_nth, Sx.of_bool; simpl; congruence).
+  assert (Hk2' : Sx.sx_nth (ParseTreesRun.rank_verdict descs2) 0 = Sx.I 1)
+    by (unfold ParseTreesRun.rank_verdict, Sx.sx_nth, Sx.of_bool; simpl; congruence).
+  assert (Hc1' : Sx.sx_nth (ParseTreesRun.rank_verdict descs1) 1 = Sx.I 1)
+    by (unfold ParseTreesRun.rank_verdict, Sx.sx_nth, Sx.of_bool; simpl; congruence).
+  assert (Hc2' : Sx.sx_nth (ParseTreesRun.rank_verdict descs2) 1 = Sx.I 1)
+    by (unfold ParseTreesRun.rank_verdict, Sx.sx_nth, Sx.of_bool; simpl; congruence).
+  destruct (ParseTreesRunSpec.rank_verdict_rank descs1 Hk1') as (rank1 & Hrk1 & _).
+  destruct (ParseTreesRunSpec.rank_verdict_rank descs2 Hk2') as (rank2 & Hrk2 & _).
+  exact (C12_transport_inverse_objects Z Z size1 In1 par1 cspec1 atom1 fwd1 size2 In2 par2 cspec2 atom2 fwd2
+           s1 s2 root1 root2 rank1 rank2 ord
+           Hn1 (ParseTreesRunSpec.rank_verdict_closed descs1 Hc1') Hrk1 Hp1
+           (C12_idescribes_decided size1 descs1 s1 Hz1 Ei1) Hr1 Hs1
+           Hn2 (ParseTreesRunSpec.rank_verdict_closed descs2 Hc2') Hrk2 Hp2
+           (C12_idescribes_decided size2 descs2 s2 Hz2 Ei2) Hr2 Hs2
+           (C12_wf_spec_decided s1 W1) (C12_wf_spec_decided s2 W2) (C12_check_cert_sound s1 s2 ord fuel Hc)).
 Qed.
 
 (* (2)+(3) on objects: whenever Bijection.construct returns a bijection, its map is a size-preserving bijection
@@ -630,6 +720,10 @@ Print Assumptions C12_transport_inverse.
 Print Assumptions C12_iso_cert.
 Print Assumptions C12_constructed_bijection.
 Print Assumptions C12_check_cert_sound.
+Print Assumptions C12_wf_spec_decided.
+Print Assumptions C12_transport_inverse_decided.
+Print Assumptions C12_idescribes_decided.
+Print Assumptions C12_transport_inverse_objects_decided.
 Print Assumptions C12_cert_symmetric.
 Print Assumptions C12_symmetric_flat.
 Print Assumptions C12_search_complete.
